@@ -190,6 +190,35 @@ def reverts(only, budget):
     return res
 
 
+def benign(only, budget):
+    """Changes that keep every property: the checks must stay quiet (exit 0, no VIOLATION line)."""
+    sys.path.insert(0, os.path.join(VERIF, "selftest"))
+    import benign as bb
+    res = []
+    for (bid, rel, old, new, note, props) in bb.BENIGN:
+        if only and only not in bid:
+            continue
+        d = _scratch(False)
+        try:
+            p = os.path.join(d, "src", "qce_circuit", rel)
+            s = open(p).read()
+            if s.count(old) != 1:
+                print(f"{bid:40s} pattern found {s.count(old)} times - skipped")
+                res.append({"id": bid, "property": "-", "status": "NOT-APPLICABLE"})
+                continue
+            open(p, "w").write(s.replace(old, new))
+            for pr in props:
+                rc, viol, oracles, out = _run_check(pr, os.path.join(d, "src"), budget)
+                status = "CAUGHT" if rc == 0 and not viol else ("HARNESS" if rc == 2 else "FALSE-ALARM")
+                res.append({"id": bid, "property": pr, "status": status, "oracles": oracles[:2]})
+                print(f"{bid:40s} {pr} {'quiet' if status == 'CAUGHT' else status} {[o[:200] for o in oracles[:2]]}")
+                if status != "CAUGHT":
+                    print(out[-1200:])
+        finally:
+            shutil.rmtree(d, ignore_errors=True)
+    return res
+
+
 def findings():
     """Every recorded replay of a repaired defect fires on the tree before the first fix: commit and is quiet on
     the current tree."""
@@ -220,7 +249,7 @@ def findings():
 
 def main():
     ap = argparse.ArgumentParser()
-    ap.add_argument("what", choices=["determinism", "mutants", "seeded", "reverts", "findings"])
+    ap.add_argument("what", choices=["determinism", "mutants", "seeded", "reverts", "findings", "benign"])
     ap.add_argument("--n", type=int, default=1200)
     ap.add_argument("--profiles", default="C03,C18,C05")
     ap.add_argument("--only")
@@ -230,7 +259,9 @@ def main():
     a = ap.parse_args()
     if a.what == "determinism":
         return determinism(a.n, a.profiles.split(","))
-    if a.what == "findings":
+    if a.what == "benign":
+        res = benign(a.only, a.budget)
+    elif a.what == "findings":
         res = findings()
     elif a.what == "reverts":
         res = reverts(a.only, a.budget)
